@@ -1,6 +1,5 @@
 //@@ module: chess/movegen/tables/magics.rs
 //@@ tag: c07
-//@@ needs: chess__bitboard@c07.rs
 // Contracts of the magic-bitboard machinery.  `walk_*` below are the repo's own first-principles generators
 // (attacks::generate_*), which C07.walk.* ties to the coordinate geometry for all inputs.
 use crate::verif_support::geo;
